@@ -193,7 +193,31 @@ func init() {
 					c.Count(true, sc.Helo, "helo-refused")
 					continue
 				}
+				// DSN option values that are not the RFC 3461 keywords (padded, lower case, with line breaks):
+				// the option refuses them, or every line on the wire is still a single well-formed command
+				abused := false
+				if r.Chance(25) {
+					abused = true
+					sc.DSN = true
+					hasDSN := false
+					for _, cp := range sc.Caps {
+						if cp == "DSN" {
+							hasDSN = true
+						}
+					}
+					if !hasDSN {
+						sc.Caps = append(sc.Caps, "DSN")
+					}
+					if r.Bool() {
+						sc.DSNNotify = [][]string{{" FAILURE"}, {"SUCCESS", " FAILURE"}, {"FAILURE\r\n"}, {"success"}, {"\tSUCCESS"}, {"SUCCESS ", "DELAY"}, {"FAILURE\r\nRSET"}, {"NEVER "}, {"SUCCESS,FAILURE"}}[r.Intn(9)]
+					} else {
+						sc.DSNReturn = []string{"HDRS\r\n", " FULL", "hdrs", "FULL ", "HDRS\r\nRSET", "full"}[r.Intn(6)]
+					}
+				}
 				run := runAndCompare(c, sc, "lines")
+				if abused {
+					c.Count(true, fmt.Sprint(sc.DSNNotify, sc.DSNReturn), fmt.Sprintf("dsn-abuse refused=%v", run == nil))
+				}
 				if run == nil || run.Panic != nil {
 					continue
 				}
@@ -203,6 +227,9 @@ func init() {
 				for _, e := range run.Events {
 					if e.Kind != "cmd" {
 						continue
+					}
+					if verbOf(e.Line) == "?" {
+						c.Violate("c05-stray-line", fmt.Sprintf("%q is not a command the client has any reason to send", e.Line), sc)
 					}
 					if strings.ContainsAny(e.Line, "\r\n") {
 						c.Violate("c05-crlf", "a command line contains CR or LF", sc)
@@ -325,6 +352,13 @@ func init() {
 					wants = append(wants, encS(sender))
 				}
 				wants = append(wants, encLS(rcpts))
+				if r.Chance(25) {
+					// an earlier delivery attempt through a local sendmail that cannot be started (the usual reason
+					// for falling back to SMTP): it renders nothing and must leave the message as it was
+					if err := m.WriteToSendmailWithCommand("/nonexistent/gmverif/sendmail"); err == nil {
+						c.Violate("c12-silent-success", "WriteToSendmailWithCommand reported success for a binary that does not exist", spc)
+					}
+				}
 				res := renderOnce(m, -1)
 				ops = append(ops, res.line)
 				wants = append(wants, res.want())
@@ -453,7 +487,15 @@ func checkParams(c *Ctx, sc *SmtpScenario, verb, rest string) {
 		if len(sc.DSNNotify) > 0 {
 			dsn = strings.Join(sc.DSNNotify, ",")
 		}
-		allowed["NOTIFY="+dsn] = true
+		exact := true
+		for _, n := range sc.DSNNotify {
+			if n != "NEVER" && n != "SUCCESS" && n != "FAILURE" && n != "DELAY" {
+				exact = false // anything but an RFC 3461 keyword must have been refused by the option
+			}
+		}
+		if exact {
+			allowed["NOTIFY="+dsn] = true
+		}
 	}
 	for _, p := range strings.Fields(rest) {
 		if !allowed[p] {
